@@ -20,41 +20,51 @@ Definition smodel (i : sinput) : sobs2 :=
 Definition sobs2_eqb (x y : sobs2) : bool := list_eqb oN_eqb (so_ids x) (so_ids y) && Bool.eqb (so_ok x) (so_ok y).
 
 (* The property on the implementation's values, with an independent bookkeeping of what is committed:
-   a generated value exceeds every id committed on ANY branch for that table, and exceeds every value
+   a generated value exceeds every id committed on ANY branch for that table (ids of a table that was
+   dropped on a branch no longer count for that branch), and exceeds every value
    generated or explicitly inserted for that table since the server started / since the sequence was
    last re-seated by ALTER TABLE .. AUTO_INCREMENT (so nothing is handed out twice within one running
    server, whatever sessions and branches); an explicit insert gets its value; no insert fails. *)
-Record ostate := { lo : N -> N; cm : N -> N; pd : N -> N -> N }.
-Definition o_commit (s : N) (tables : list N) (w : ostate) : ostate :=
-  {| lo := lo w; cm := fun t => N.max (cm w t) (pd w s t); pd := upd1 (pd w) s (fun _ => 0) |}.
+Record ostate := { lo : N -> N; cm : N -> N -> N; pd : N -> N -> N; ob : N -> N }.   (* cm: branch -> table -> largest committed id; ob: session -> branch *)
+Definition o_commit (s : N) (w : ostate) : ostate :=
+  {| lo := lo w; cm := fun b t => if b =? ob w s then N.max (cm w b t) (pd w s t) else cm w b t;
+     pd := upd1 (pd w) s (fun _ => 0); ob := ob w |}.
+Definition cm_all (branches : list N) (w : ostate) (t : N) : N := max_over (fun b => cm w b t) branches.
 
-Fixpoint owalk (tables : list N) (autos : N -> bool) (sc : list (N * sop)) (ids : list (option N)) (w : ostate) : bool :=
+Fixpoint owalk (branches : list N) (autos : N -> bool) (sc : list (N * sop)) (ids : list (option N)) (w : ostate) : bool :=
   match sc, ids with
   | [], [] => true
   | (s, o) :: sc', x :: ids' =>
     match o, x with
     | SGen t, Some g =>
-      (lo w t <? g) && (cm w t <? g) &&
-      let w1 := {| lo := upd1 (lo w) t g; cm := cm w; pd := upd1 (pd w) s (upd1 (pd w s) t (N.max (pd w s t) g)) |} in
-      owalk tables autos sc' ids' (if autos s then o_commit s tables w1 else w1)
+      (lo w t <? g) && (cm_all branches w t <? g) &&
+      let w1 := {| lo := upd1 (lo w) t g; cm := cm w; pd := upd1 (pd w) s (upd1 (pd w s) t (N.max (pd w s t) g)); ob := ob w |} in
+      owalk branches autos sc' ids' (if autos s then o_commit s w1 else w1)
     | SExpl t v, Some r =>
       (r =? v) &&
-      let w1 := {| lo := upd1 (lo w) t (N.max (lo w t) v); cm := cm w; pd := upd1 (pd w) s (upd1 (pd w s) t (N.max (pd w s t) v)) |} in
-      owalk tables autos sc' ids' (if autos s then o_commit s tables w1 else w1)
-    | SCommitT, None | SSwitch _, None => owalk tables autos sc' ids' (o_commit s tables w)
-    | SRollbackT, None => owalk tables autos sc' ids' {| lo := lo w; cm := cm w; pd := upd1 (pd w) s (fun _ => 0) |}
-    | SRestart, None => owalk tables autos sc' ids' {| lo := fun _ => 0; cm := cm w; pd := fun _ _ => 0 |}
+      let w1 := {| lo := upd1 (lo w) t (N.max (lo w t) v); cm := cm w; pd := upd1 (pd w) s (upd1 (pd w s) t (N.max (pd w s t) v)); ob := ob w |} in
+      owalk branches autos sc' ids' (if autos s then o_commit s w1 else w1)
+    | SCommitT, None => owalk branches autos sc' ids' (o_commit s w)
+    | SSwitch b, None =>
+      let w1 := o_commit s w in
+      owalk branches autos sc' ids' {| lo := lo w1; cm := cm w1; pd := pd w1; ob := upd1 (ob w1) s b |}
+    | SRollbackT, None => owalk branches autos sc' ids' {| lo := lo w; cm := cm w; pd := upd1 (pd w) s (fun _ => 0); ob := ob w |}
+    | SRestart, None => owalk branches autos sc' ids' {| lo := fun _ => 0; cm := cm w; pd := fun _ _ => 0; ob := ob w |}
     | SAlter t _, None =>
-      let w1 := o_commit s tables w in
-      owalk tables autos sc' ids' {| lo := upd1 (lo w1) t 0; cm := cm w1; pd := pd w1 |}
+      let w1 := o_commit s w in
+      owalk branches autos sc' ids' {| lo := upd1 (lo w1) t 0; cm := cm w1; pd := pd w1; ob := ob w1 |}
+    | SRecreate t, None =>
+      (* the rows of the dropped table are gone on that branch; the sequence is re-seated *)
+      let w1 := o_commit s w in
+      owalk branches autos sc' ids' {| lo := upd1 (lo w1) t 0; cm := upd2 (cm w1) (ob w1 s) t 0; pd := pd w1; ob := ob w1 |}
     | _, _ => false
     end
   | _, _ => false
   end.
 
 Definition soracle (i : sinput) (o : sobs2) : bool :=
-  so_ok o && owalk (si_tables i) (memb (si_autos i)) (si_sched i) (so_ids o)
-                   {| lo := fun _ => 0; cm := fun _ => 0; pd := fun _ _ => 0 |}.
+  so_ok o && owalk (si_branches i) (memb (si_autos i)) (si_sched i) (so_ids o)
+                   {| lo := fun _ => 0; cm := fun _ _ => 0; pd := fun _ _ => 0; ob := lookup_def (si_sbr i) |}.
 
 Inductive acase := D1 (c : C28.Corr.case) | D2 (c : sinput * sobs2).
 Definition check_any (c : acase) : N :=
